@@ -129,10 +129,22 @@ func errorEnumerate(h *histRunner, i int, op gen.HOp, rest []gen.HOp, o *Outcome
 				Detail: fmt.Sprintf("%s (call error: %v): the running server shows %s = %s, a server restarted on the same disk shows %s", what, callErr, k2, lv, rv)}
 		}
 		// and the running server goes on correctly
-		if v := afterRecovery(c, db, matched, h, rest, what+fmt.Sprintf(" (call error: %v), server not restarted", callErr), o, x); v != nil {
+		v, reached := afterRecoveryM(c, db, matched, h, rest, what+fmt.Sprintf(" (call error: %v), server not restarted", callErr), o, x)
+		if v != nil {
 			v.Class = "C04/write-error/afterwards"
 			v.Signature = strings.Replace(v.Signature, "C04/crash/after-recovery/", "C04/write-error/afterwards/", 1)
 			return v
+		}
+		if reached != nil {
+			// ... and after a clean restart later on (what the failed write left
+			// in memory only is gone then): the same continuation once more
+			c3 := c.Clone()
+			v, _ := afterRecoveryM(c3, kvgraph.NewKVGraph(c3.Open()), reached, h, nil, what+fmt.Sprintf(" (call error: %v), the server went on, was restarted cleanly later", callErr), o, x)
+			if v != nil {
+				v.Class = "C04/write-error/after-later-restart"
+				v.Signature = strings.Replace(v.Signature, "C04/crash/after-recovery/", "C04/write-error/after-later-restart/", 1)
+				return v
+			}
 		}
 	}
 	return nil
